@@ -11,7 +11,7 @@ import gen
 import p_recv as PR
 from codec import M, sansldap
 
-LEAN_TARGETS = ["Verif.Props.C05"]
+LEAN_TARGETS = ["Verif.Props.C05", "Verif.Props.C05More"]
 LEVEL = "proof"
 ASSUMPTIONS = [
     "the theorem is about the model's inventory of exception sites; the correspondence compares the exception *class* escaping receive, so an "
@@ -168,10 +168,12 @@ def run(ctx):
                 m = rep["ok"]
                 if role == "server":
                     op = m["op"]
-                    ok = (m["id"] == 0 and op["k"] == "extResp" and op["res"]["code"] == 2 and op.get("name") is not None
-                          and C.untx(op["name"]) == PR.NOTICE and op.get("value") is None and not m["controls"])
+                    # RFC 4511 §4.4.1: message id 0, an ExtendedResponse named 1.3.6.1.4.1.1466.20036, no response value (the result code
+                    # says why, and is not prescribed by the property)
+                    ok = (m["id"] == 0 and op["k"] == "extResp" and op.get("name") is not None
+                          and C.untx(op["name"]) == PR.NOTICE and op.get("value") is None)
                 else:
-                    ok = m["id"] == 0 and m["op"]["k"] == "unbind" and not m["controls"]
+                    ok = m["op"]["k"] == "unbind"
             if ok:
                 continue
             if role == "client" and b == bytes.fromhex("30050201006200"):
